@@ -43,7 +43,7 @@ FLOORS = {'*': {**{f'{k}:{w}': 10 for k in ('openapi', 'openapi30', 'openrpc') f
                 'context:not-first': 20, 'context:positional': 10, 'subsets-dispatched': 3000, 'accepted': 300, 'refused': 1000,
                 'methods': 100, 'twin-registration': 30, 'exclusion:by-name': 30, 'exclusion:default-none': 30, 'exclusion:by-annotation': 30,
                 'validator:base': 100, 'validator:pydantic': 30, 'validator:pydantic:extra-ignore': 30, 'validator:pydantic:extra-allow:as-is': 30,
-                'view:context-name-equals-a-parameter-name': 30, 'style:wrapped': 30, 'style:view-static': 30, 'style:view-class': 30, 'signature:variadic': 30, 'signature:nullable': 30}}
+                'view:context-name-equals-a-parameter-name': 30, 'style:wrapped': 30, 'style:view-static': 30, 'style:view-class': 30, 'style:view-static-inherited': 30, 'style:view-class-inherited': 30, 'signature:variadic': 30, 'signature:nullable': 30}}
 
 
 def render(params, ctx_at, ctx_name, skip, as_view, first='self', lead=None, fname='f', extras=None):
@@ -141,11 +141,12 @@ def run_method(ctx, params, ctx_at, positional, skip, style, validator='base', e
             "_sig = inspect.signature(_inner)\n"
             "f.__signature__ = _sig.replace(parameters=[p for p in _sig.parameters.values() if p.name != 'session'])")
     else:
-        first = {'view': 'self', 'view-static': None, 'view-class': 'cls'}.get(style, 'self')
+        first = {'view': 'self', 'view-static': None, 'view-class': 'cls', 'view-static-inherited': None,
+                 'view-class-inherited': 'cls'}.get(style, 'self')
         src = render(params, ctx_at, ctx_name, skip, as_view, first=first, extras=extras)
-        if style == 'view-static':
+        if style.startswith('view-static'):
             src = '@staticmethod\n' + src
-        elif style == 'view-class':
+        elif style.startswith('view-class'):
             src = '@classmethod\n' + src
     class Injected(str):
         """marker annotation of injected (excluded) parameters"""
@@ -173,10 +174,16 @@ def run_method(ctx, params, ctx_at, positional, skip, style, validator='base', e
         ctx.hit('view:context-name-equals-a-parameter-name')
     try:
         if as_view:
-            vsrc = 'class V(ViewMixin):\n    def __init__(self, context=None):\n        super().__init__()\n' + \
-                   '\n'.join('    ' + l for l in src.splitlines())
+            if style.endswith('-inherited'):
+                # the method comes from a plain mixin; the registered view only inherits it
+                vsrc = 'class Mixin:\n' + '\n'.join('    ' + l for l in src.splitlines()) + \
+                       '\n\nclass V(ViewMixin, Mixin):\n    def __init__(self, context=None):\n        super().__init__()\n'
+            else:
+                vsrc = 'class V(ViewMixin):\n    def __init__(self, context=None):\n        super().__init__()\n' + \
+                       '\n'.join('    ' + l for l in src.splitlines())
             exec(compile(vsrc, '<vmon_c17_programs>', 'exec', dont_inherit=True), ns)
-            validator.validate(ns['V'].__dict__['f'].__func__ if style != 'view' else ns['V'].f)
+            raw = inspect.getattr_static(ns['V'], 'f')
+            validator.validate(getattr(raw, '__func__', raw))
             method = pjrpc.server.dispatcher.ViewMethod(ns['V'], 'f', 'f', context=view_ctx)
         else:
             exec(compile(src, '<vmon_c17_programs>', 'exec', dont_inherit=True), ns)
@@ -332,7 +339,8 @@ def _ctx_required(fn, name):
     return inspect.signature(fn).parameters[name].default is inspect.Parameter.empty
 
 
-PARAM_NAMES = ['a', 'ref', 'const', 'type', 'examples']      # incl. names that mean something inside a schema document
+# incl. names that mean something inside a schema document or are parameter names of the library's own functions
+PARAM_NAMES = ['a', 'signature', 'const', 'method', 'examples']
 
 
 def signatures(max_params):
@@ -370,15 +378,15 @@ def gen(ctx):
         ctx_options = [(None, False)] + [(at, False) for at in range(n + 1)] + [(0, True)]
         for ctx_at, positional in ctx_options:
             for skip in (False, 'by-name', 'default-none', 'by-annotation'):
-                for style in ('def', 'view', 'wrapped', 'view-static', 'view-class'):
+                for style in ('def', 'view', 'wrapped', 'view-static', 'view-class', 'view-static-inherited', 'view-class-inherited'):
                     k += 1
                     if style.startswith('view') and ctx_at not in (None, 0):
                         continue
-                    if style in ('wrapped', 'view-static', 'view-class') and k % 3:
+                    if style in ('wrapped', 'view-static', 'view-class', 'view-static-inherited', 'view-class-inherited') and k % 3:
                         continue
                     if not full and k % 3 and not (ctx_at not in (None, 0)):
                         continue
-                    ex = {'variadic': (k // 5) % 4 == 0 and style in ('def', 'view'), 'nullable': k % 4 == 1}
+                    ex = {'variadic': (k // 7) % 4 == 0 and style in ('def', 'view'), 'nullable': k % 4 == 1}
                     yield 'method', dict(params=ps, ctx_at=ctx_at, positional=positional, skip=skip, style=style,
                                          validator=VALIDATORS[(k // 2) % 4] if k % 3 == 0 else 'base', extras=ex)
 
